@@ -88,6 +88,13 @@ type Membership struct {
 	Role       string
 }
 
+// Sponsorship is a link table whose nullable foreign key comes before a plain one.
+type Sponsorship struct {
+	Backer     sql.NullInt64 `gomacro-sql-foreign:"Product" gomacro-sql-on-delete:"SET NULL"`
+	IdCustomer IdCustomer    `gomacro-sql-on-delete:"CASCADE"`
+	Note       string
+}
+
 // Marker is a table made of its id only.
 type Marker struct {
 	Id int64
